@@ -80,7 +80,11 @@ def generate(rng, profile="any", ndefs=None, nlibs=None, style="simple", max_chi
         defs.append(d)
     ndefs = ndefs or r.randint(3, 9)
     for k in range(ndefs):
-        d = nextlib().create_definition(nm(("d", li[0]), "MOD%d" % k))
+        base = "MOD%d" % k
+        if nlibs > 1 and r.random() < 0.25:
+            # a definition name may be used again in another library (a library is its own naming scope)
+            base = r.choice(defs).name or base
+        d = nextlib().create_definition(nm(("d", li[0]), base))
         mk_ports(d, 0 if k < ndefs - 1 else 1, 4)
         kind = r.random()
         nch = 0 if kind < 0.12 else r.randint(1, max_children)
@@ -113,7 +117,10 @@ def generate(rng, profile="any", ndefs=None, nlibs=None, style="simple", max_chi
                 kw["lower_index"] = r.choice([0, 0, 2, 5])
             if not strict and r.random() < 0.04:
                 w = 0
-            c = d.create_cable(maybe(nm(("c", id(d)), r.choice(["c", "net", "w"]) + str(j))), wires=w or None, **kw)
+            cbase = r.choice(["c", "net", "w"]) + str(j)
+            if (w > 1 or arr1) and r.random() < 0.15:
+                cbase += "[%d]" % r.randint(0, 3)       # 2-D style bus base name
+            c = d.create_cable(maybe(nm(("c", id(d)), cbase)), wires=w or None, **kw)
             if arr1:
                 c.is_scalar = False
         # connect
@@ -136,6 +143,13 @@ def generate(rng, profile="any", ndefs=None, nlibs=None, style="simple", max_chi
                     r.choice(wires).connect_pin(p, position=r.choice([None, None, 0]))
         defs.append(d)
     top = defs[-1]
+    if nlibs > 1 and top.name and r.random() < 0.3:
+        # a decoy: an unused definition with the top definition's name in another library
+        others = [k for k in range(nlibs) if libs[k] is not top.library]
+        k = r.choice(others)
+        if (top.name.lower()) not in nm.used.get(("d", k), ()):
+            dec = libs[k].create_definition(nm(("d", k), top.name))
+            mk_ports(dec, 1, 2)
     if outside and r.random() < 0.4:
         # instances outside the top hierarchy sharing definitions with it
         d = libs[-1].create_definition(nm(("d", nlibs - 1), "OUTSIDE"))
